@@ -26,7 +26,7 @@ def one(d):
         return None
     name = os.path.basename(d.rstrip('/'))
     if name.startswith('change_'):
-        name = d.rstrip('/').split('/')[3] + '-' + name[-1]
+        name = os.path.basename(os.path.dirname(d.rstrip('/'))) + '-' + name[-1]
     w = os.path.join(tmproot, name)
     os.makedirs(w)
     subprocess.run(['rsync', '-a', '--exclude', '*.so', '--exclude', '__pycache__',
